@@ -325,7 +325,7 @@ pub fn c07_iter_gapped_body<S: Src>(s: &mut S) {
     let n = x.len();
     let g = s.upto(2) as usize;
     let eoi = SimpleSpan::from(total + g..total + g);
-    let it = toks.into_iter().take(n);
+    let it = toks[..n].iter().copied();
     let input = chumsky::input::IterInput::new(it, eoi);
     type XM<'a> = extra::Err<Cheap>;
     fn assert_parser<'a, I: chumsky::input::Input<'a, Token = u8, Span = SimpleSpan>, O, P: Parser<'a, I, O, XM<'a>>>(p: P) -> P {
